@@ -196,7 +196,7 @@ def main(prop, tier, seed, replay_path=None):
                     continue                      # only scenarios that end with an assertion
                 sid += 1
                 scen.setdefault(j['ci'], []).append((sid, h))
-        cap = 60000 if quick else 250000        # bound the work: a seeded sample of the enumerated scenarios
+        cap = 36000 if quick else 250000        # bound the work: a seeded sample of the enumerated scenarios
         tot = sum(len(v) for v in scen.values())
         if tot > cap:
             for ci in scen:
@@ -204,7 +204,7 @@ def main(prop, tier, seed, replay_path=None):
         # seeded random longer scenarios (the model decides them in BddTrace.tla)
         for ci in range(1, len(charts) + 1):
             c = charts[ci - 1]
-            for _ in range(250 if quick else 1500):
+            for _ in range(200 if quick else 1500):
                 h = []
                 for _ in range(rng.randint(3, 7)):
                     r_ = rng.random()
